@@ -23,7 +23,7 @@ Layers
      executed by rebuilding from the root.
   T  full trees WITHOUT deduplication: (T1) the six gate events to length 6 / 8 with
      the four check_*_enabled functions called after every event; (T2) gate events
-     interleaved with pipeline checks of four programs to length 4 / 6.
+     interleaved with pipeline checks of four programs to length 4 / 5.
   W  every balanced sequence of T1 / T2 again as generated Python source with real
      nested `with` statements and really raised exceptions (incl. one exception
      propagating through several managers).
@@ -670,7 +670,7 @@ def run(ctx):
     quick = ctx.quick
     L_bfs = 6 if quick else 8
     L_gate = 6 if quick else 8
-    L_full = 4 if quick else 6
+    L_full = 4 if quick else 5
 
     import time
     t0 = time.time()
